@@ -20,3 +20,9 @@ ENTRY = {
         "the code before the repairs (48745d4, 85f4ab0, a3c1d4e) violated the full statements: witnesses dup_on_amend_witness, inflight_invalidate_witness, shared_metadata_witness, shared_slice_witness; with all four switches on (Cfg.current) reach_all_fixed needs no side condition",
     ],
 }
+
+# the epoch InvalidateCache is called with comes from the beacon node's chain_reorg event through app/sse
+# (handleChainReorgEvent / notifyChainReorg): Model/SseReorg.lean, Props/C20Sse.lean, op `sse` of the cache stream
+ENTRY.setdefault("lean_props_extra", []).append("CharonV.Props.C20Sse")
+ENTRY["trusted_base"] = ENTRY["trusted_base"] + ["hook app/sse/verif_export.go (build tag verif): listener without beacon node, handleChainReorgEvent callable with a raw event payload"]
+ENTRY["assumptions"] = ENTRY["assumptions"] + ["the SSE listener notifies its subscribers only when the epoch differs from the last notified one (several beacon nodes report the same reorg): two distinct reorgs with the same common-ancestor epoch are notified once — observation, the cache property starts at InvalidateCache"]
